@@ -151,6 +151,16 @@ func (state *RuntimeState) idpOpenIDCGetClientConfig(client_id string) (*OpenIDC
 // 1. redirect_urls scheme MUST be https (to prevent code snooping).
 // 2. redirect_urls MUST not include a query  (to prevent stealing of code with faulty clients (open redirect))
 // 3. redirect_url path MUST NOT contain ".." to prevent path traversal attacks
+// hostnameInDomain returns true if hostname is the domain itself or one of its
+// subdomains: a plain suffix test would also accept look-alike hosts such as
+// evilexample.com for the domain example.com.
+func hostnameInDomain(hostname string, domain string) bool {
+	if domain == "" {
+		return false
+	}
+	return hostname == domain || strings.HasSuffix(hostname, "."+domain)
+}
+
 func (client *OpenIDConnectClientConfig) CanRedirectToURL(redirectUrl string) (bool, *url.URL, error) {
 	if len(client.AllowedRedirectDomains) < 1 && len(client.AllowedRedirectURLRE) < 1 {
 		return false, nil, nil
@@ -189,7 +199,7 @@ func (client *OpenIDConnectClientConfig) CanRedirectToURL(redirectUrl string) (b
 	}
 	matchedDomain := false
 	for _, domain := range client.AllowedRedirectDomains {
-		matched := strings.HasSuffix(parsedURL.Hostname(), domain)
+		matched := hostnameInDomain(parsedURL.Hostname(), domain)
 		if matched {
 			matchedDomain = true
 			break
@@ -208,7 +218,7 @@ func (client *OpenIDConnectClientConfig) CorsOriginAllowed(origin string) (bool,
 		return false, nil
 	}
 	for _, domain := range client.AllowedRedirectDomains {
-		matched := strings.HasSuffix(parsedURL.Hostname(), domain)
+		matched := hostnameInDomain(parsedURL.Hostname(), domain)
 		if matched {
 			return true, nil
 		}
@@ -240,7 +250,7 @@ func (state *RuntimeState) idpOpenIDCGenericIsCorsOriginAllowed(origin string) (
 	}
 	for _, client := range state.Config.OpenIDConnectIDP.Client {
 		for _, domain := range client.AllowedRedirectDomains {
-			matched := strings.HasSuffix(parsedURL.Hostname(), domain)
+			matched := hostnameInDomain(parsedURL.Hostname(), domain)
 			if matched {
 				return true, nil
 			}
